@@ -6,7 +6,13 @@ import (
 )
 
 func init() {
-	streams["C01"] = func(c *Ctx) { streamHistories(c, HistCfg{Ops: 25, QueriesPer: 4, Indexes: true, Dumps: false, Malformed: false}, "results") }
+	streams["C01"] = func(c *Ctx) {
+		streamHistories(c, HistCfg{Ops: 25, QueriesPer: 4, Indexes: true, Dumps: false, Malformed: false}, "results")
+		if c.Violations+len(c.CorrBroken) == 0 {
+			// without indexes: integers of any magnitude (int64/uint64 extremes), every fourth history without floats
+			streamHistories(c, HistCfg{Ops: 20, QueriesPer: 5, Indexes: false, Dumps: false, Malformed: false}, "results")
+		}
+	}
 	streams["C06"] = func(c *Ctx) { streamHistories(c, HistCfg{Ops: 30, QueriesPer: 1, Indexes: true, Dumps: true, Malformed: true}, "dumps") }
 }
 
